@@ -265,24 +265,6 @@ def k9L (eo : EqOracle) : List V → List V → Bool
 end
 
 mutual
-def hasRe : V → Bool
-  | .matchesRe _ _ _ => true
-  | .optional v => hasRe v
-  | .optionalSeq _ vs => hasReL vs
-  | .deepIter m it => hasRe m || hasRe it
-  | .deepIterSeq _ ms it => hasReL ms || hasRe it
-  | .deepMap k v m => hasRe k || hasRe v || hasRe m
-  | .not_ v _ _ => hasRe v
-  | .or_ vs => hasReL vs
-  | .and_ vs => hasReL vs
-  | .andRaw _ vs => hasReL vs
-  | _ => false
-def hasReL : List V → Bool
-  | [] => false
-  | v :: vs => hasRe v || hasReL vs
-end
-
-mutual
 /-- the expression is one a user can write (no built form inside) -/
 def source : V → Bool
   | .andRaw _ _ => false
@@ -310,15 +292,15 @@ def cohBound (eo : EqOracle) : Bound → Bound → Bool
 
 mutual
 /-- the equality oracle is coherent on corresponding parameters of two expressions: Python's hash
-    contract (`==` ⇒ equal hashes), hashable options stay hashable as stored, and — while re's cache keeps
-    both — `==` regex arguments with the same flags compile to one pattern object.  A fact about the
+    contract (`==` ⇒ equal hashes, also for compiled patterns), hashable options stay hashable as stored, and
+    `==` regex arguments with the same flags compile to `==` patterns.  A fact about the
     objects the harness hands in, checked on every case (part of `wf`). -/
 def coherent (eo : EqOracle) : V → V → Bool
   | .instOf t, w => (match w with | .instOf t' => cohLeaf eo 0 t t' | _ => true)
   | .matchesRe r fl _, w =>
       (match w with
        | .matchesRe r' fl' _ =>
-         !(eo.peq 5 r r' == .t && fl == fl') || (eo.patEq r fl r' fl' == .t && eo.patSame r fl r' fl')
+         !(eo.peq 5 r r' == .t && fl == fl') || (eo.patEq r fl r' fl' == .t && eo.patHashEq r fl r' fl')
        | _ => true)
   | .optional v, w => (match w with | .optional v' => coherent eo v v' | _ => true)
   | .optionalSeq _ vs, w => (match w with | .optionalSeq _ vs' => coherentL eo vs vs' | _ => true)
@@ -362,12 +344,8 @@ def equalParams (c : Case) : Bool :=
     different tuples -/
 def knownK9 (c : Case) : Bool := equalParams c && k9 c.eqOracle c.tree c.tree2
 
-/-- K18a applies: equal parameters, a `matches_re` inside, and re's compile cache purged between the two
-    constructions (so equal regexes compile to distinct pattern objects) -/
-def knownK18a (c : Case) : Bool := equalParams c && c.purge && hasRe c.tree
-
 def known (c : Case) : List String :=
-  (if knownK9 c then ["K9"] else []) ++ (if knownK18a c then ["K18a"] else [])
+  if knownK9 c then ["K9"] else []
 
 def isProbe : V → Bool
   | .probe _ _ => true
